@@ -333,7 +333,9 @@ fn piece(rng: &mut Rng, k: usize, nfiles: usize) -> String {
     // split classes are declared `(partial)` in every file (the documented way); a plain duplicate
     // declaration (a `duplicate-type` diagnostic) is kept as a rare malformed case
     let pc = if rng.chance(9, 10) { format!("(partial) {c}") } else { c.to_string() };
-    match rng.below(16) {
+    let npieces = if rng.chance(1, 12) { 17 } else { 16 };
+    match rng.below(npieces) {
+        16 => format!("---@class {pc}\nlocal r{k} = require(\"f{other}\")\nprint(r{k}.value)\n"),
         0 => format!("--- doc of {c} from f{k}\n---@class {pc}\n---@field x{k} integer\nlocal {c} = {{}}\n"),
         1 => format!("---@class {pc}\nlocal {c} = {{}}\n--- method doc f{k}\nfunction {c}:m{k}() return {k} end\n"),
         2 => format!("---@deprecated\n---@class {pc}\n---@field d{k} string\n"),
@@ -357,6 +359,7 @@ fn gen_text(rng: &mut Rng, k: usize, nfiles: usize, module: bool) -> String {
     let mut s = String::new();
     for _ in 0..rng.range(1, 4) {
         s.push_str(&piece(rng, k, nfiles));
+        s.push('\n'); // a blank line: a trailing doc block must not attach to the next piece's statement
     }
     if module {
         s.push_str(&format!("local M = {{}}\nM.value = {k}\nreturn M\n"));
@@ -382,6 +385,23 @@ pub fn queries(files: &[(String, Vec<String>)]) -> Vec<String> {
     q.push("lib.f0".into());
     q.push("nope".into());
     q
+}
+
+/// a `---@class` doc block directly attached to `local x = require(...)`: the class is bound to another
+/// file's table and adopts that file's members (`merge_def_type_with_table`)
+pub fn class_bound_to_required_table(c: &WsCase) -> bool {
+    for (_, vs) in &c.files {
+        for v in vs {
+            let lines: Vec<&str> = v.lines().collect();
+            for w in lines.windows(2) {
+                if w[0].starts_with("---@") && !w[0].starts_with("---@diagnostic") && w[1].contains("require(") && w[1].starts_with("local ") {
+                    // walk back over the doc block to see whether it declares a class
+                    return true;
+                }
+            }
+        }
+    }
+    false
 }
 
 /// classes / aliases / enums / globals declared in two or more files of the case (any variant)
